@@ -295,7 +295,42 @@ def exec_wrapper_handshake(ctx, case: Dict[str, Any]) -> None:
         with OpenProcessPatch(factory) as patch:
             params = StdioParameters(command="scripted")
 
+            inner_got: List[Any] = []
+            inner_stdin: List[bytes] = []
+
+            async def inner_connection():
+                # a second connection opened while the first one's block is open, on which nothing is negotiated: it
+                # accepts batches, whatever the connection around it settled on
+                how = case.get("inner")
+                n_before = len(patch.spawned)
+
+                async def use(read):
+                    proc2 = patch.spawned[n_before]
+                    proc2.feed((json.dumps([MEMBERS[k] for k in members]) + "\n").encode())
+                    proc2.feed((json.dumps(MEMBERS["note"]) + "\n").encode())
+                    await asyncio.sleep(0.01)
+                    while True:
+                        try:
+                            inner_got.append(read.receive_nowait())
+                        except (anyio.WouldBlock, anyio.EndOfStream, anyio.ClosedResourceError):
+                            break
+                    inner_stdin.append(proc2.stdin_bytes())
+
+                async def open_and_use():
+                    if how == "client_object":
+                        async with SC.StdioClient(StdioParameters(command="scripted-inner")) as c2:
+                            await use(c2.get_streams()[0])
+                    else:
+                        async with SC.stdio_client(StdioParameters(command="scripted-inner")) as (r2, w2):
+                            await use(r2)
+                if how == "spawned_task":
+                    await asyncio.create_task(open_and_use())
+                else:
+                    await open_and_use()
+
             async def after(read):
+                if case.get("inner"):
+                    await inner_connection()
                 proc = patch.spawned[0]
                 proc.feed((json.dumps([MEMBERS[k] for k in members]) + "\n").encode())
                 proc.feed((json.dumps(MEMBERS["note"]) + "\n").encode())
@@ -320,15 +355,28 @@ def exec_wrapper_handshake(ctx, case: Dict[str, Any]) -> None:
                     client = MCPClient(tr)
                     await client.initialize()
                     stdin = await after((await tr.get_streams())[0])
-        return got, stdin
+        return got, stdin, inner_got, inner_stdin
 
     try:
-        (got, stdin), _ = run_virtual(main, max_iterations=300_000)
+        (got, stdin, inner_got, inner_stdin), _ = run_virtual(main, max_iterations=300_000)
     except Exception as e:  # noqa
         ctx.violation("wrapper_handshake_failed", f"{variant} at {hv}: {e!r}", case)
         ctx.record(case, shape="crash")
         return
     ctx.count("stdio_sessions")
+    if case.get("inner"):
+        ctx.count("inner_connections")
+        got_i = [norm_wire(msg_to_wire(m)) for m in inner_got if not isinstance(m, list)]
+        exp_i = [(norm_wire(MEMBERS[k]), inbound_class(MEMBERS[k]) == "valid") for k in members
+                 if inbound_class(MEMBERS[k]) != "invalid"] + [(norm_wire(MEMBERS["note"]), True)]
+        ok_i, why_i = seq_match(got_i, exp_i)
+        if not ok_i:
+            ctx.violation("valid_member_lost", f"a connection without a negotiated version, opened ({case['inner']}) inside a "
+                          f"{variant} block that settled on {hv}: {why_i}", case)
+        wrote = [l for l in b"".join(inner_stdin).split(b"\n") if l.strip() and b'"error"' in l]
+        if wrote:
+            ctx.violation("rejection_count", f"a connection without a negotiated version, opened ({case['inner']}) inside a "
+                          f"{variant} block that settled on {hv}, wrote {len(wrote)} rejection(s): {wrote[0][:120]!r}", case)
     got_w = [norm_wire(msg_to_wire(m)) for m in got if not isinstance(m, list)]
     exp = []
     if ref_batching(hv):
@@ -658,6 +706,11 @@ def run(ctx):
                 case = {"handshake": hv, "variant": variant, "batch": b}
                 if ctx.mine():
                     exec_wrapper_handshake(ctx, case)
+            if hv in ("2025-03-26", "2025-06-18"):
+                for inner in ("stdio_client", "client_object", "spawned_task"):
+                    case = {"handshake": hv, "variant": variant, "batch": ["req", "note", "resp"], "inner": inner}
+                    if ctx.mine():
+                        exec_wrapper_handshake(ctx, case)
     for v1, v2 in ((None, "2025-06-18"), ("2025-03-26", "2025-06-18"), ("2025-06-18", "2025-03-26"), ("2024-11-05", "2025-06-19"),
                    ("2025-03-26", "2024-11-05")):
         for n_before in (0, 50, 96, 97, 98, 99, 100, 101, 150):
